@@ -892,6 +892,24 @@ func (f *Frame) loopEnv(h *ssa.BasicBlock, st *State, phiOverride map[*ssa.Phi]V
 			}
 		}
 	}
+	// identifiers of the invariants that no longer name a local (renamed variable): bound once per loop
+	if spec := f.loopSpec(h); spec != nil && f.spec != nil {
+		if f.loopAlias == nil {
+			f.loopAlias = map[*ssa.BasicBlock]map[string]string{}
+		}
+		if a, done := f.loopAlias[h]; done {
+			env.alias = a
+		} else {
+			protect := map[string]bool{}
+			for _, p := range f.fn.Params {
+				protect[p.Name()] = true
+			}
+			if note := g.bindRenamed(env, f.spec, spec.Invariants, protect); note != "" {
+				g.notes = append(g.notes, fmt.Sprintf("loop %d: %s", f.loopOrd[h], note))
+			}
+			f.loopAlias[h] = env.alias
+		}
+	}
 	// every SSA register by its name (brittle, for last resort use)
 	for v, val := range f.vals {
 		if _, ok := env.vars[v.Name()]; !ok {
